@@ -132,8 +132,10 @@ def check_allocators(ctx, prog):
     # the element cleanup: in the failure arm every element is freed before the array (loop calling free(*i) over r)
     frees = [n for n in F.calls("free")]
     loops = [n for n in frees if enclosing_loops(F, n)]
+    via_helper = [n for n in F.calls("strv_free")]
     ctx.ob("C05.O3s", "strv_concat: element cleanup", "the failure arm frees every element in a loop over the (zero terminated) "
-           "array before freeing the array", len(loops) >= 1 and len(frees) >= 2, {"free_calls": [expr_str(x) for x in frees]})
+           "array before freeing the array (directly, or through strv_free)", (len(loops) >= 1 and len(frees) >= 2) or len(via_helper) >= 1,
+           {"free_calls": [expr_str(x) for x in frees + via_helper]})
     Ff = prog.fn("strv_free")
     frees = [n for n in Ff.calls("free")]
     ctx.ob("C05.O3s", "strv_free", "strv_free frees every element in a loop and then the array", len([n for n in frees if enclosing_loops(Ff, n)]) == 1
